@@ -164,6 +164,11 @@ class Check:
             r = per_rule.setdefault(o.rule, {"text": self.rules.get(o.rule, ""), "obligations": 0, "discharged": 0})
             r["obligations"] += 1
             r["discharged"] += 1 if o.ok else 0
+        # which constructs carry the obligations: {module:function: {rule: count}}
+        sites: dict[str, dict] = {}
+        for o in self.obs:
+            d = sites.setdefault(f"{o.module}:{o.function}", {})
+            d[o.rule] = d.get(o.rule, 0) + 1
         # samples: violated first, then a seed-rotated spread over rules
         samples = [o.as_dict() for o in self.obs if not o.ok][:10]
         by_rule: dict[str, list] = {}
@@ -185,6 +190,7 @@ class Check:
                 "samples": samples[:40],
                 "exhaustive": True,
                 "per_rule": per_rule,
+                "obligation_sites": sites,
                 "analysed": {"files": sorted(self.repo.read_log), "functions": self.analysed["functions"],
                              "tables": self.analysed["tables"], "notes": self.analysed["notes"],
                              "source_digest": self.repo.digest()},
